@@ -108,6 +108,9 @@ type ManifestOpt struct {
 	// LayerURLs, when set, is written into the urls field of every layer descriptor (mirror locations
 	// of an ordinary, distributable layer).
 	LayerURLs []string
+	// LayerTitles, when set, gives each layer descriptor (by position) an org.opencontainers.image.title
+	// annotation ("" = none): the file name a file store materialises the layer under.
+	LayerTitles []string
 }
 
 func (d *DAG) descs(ids []int) []ocispec.Descriptor {
@@ -133,6 +136,9 @@ func (d *DAG) Manifest(name string, config int, layers []int, o ManifestOpt) int
 	for i := range m.Layers {
 		if o.LayerURLs != nil {
 			m.Layers[i].URLs = o.LayerURLs
+		}
+		if i < len(o.LayerTitles) && o.LayerTitles[i] != "" {
+			m.Layers[i].Annotations = map[string]string{ocispec.AnnotationTitle: o.LayerTitles[i]}
 		}
 	}
 	kind, mt := KManifest, ocispec.MediaTypeImageManifest
@@ -402,6 +408,13 @@ func Extra(name string) *DAG {
 		l := d.Blob("L", MTLayer, "l")
 		d.Manifest("M", c, []int{l}, no())
 		d.Manifest("R", c, nil, ManifestOpt{Subject: l, ArtifactType: "application/vnd.test.sig"})
+	case "same-title": // two platform manifests whose layers carry the same file name but different bytes
+		c := d.Blob("C", MTConfig, "{}")
+		l1 := d.Blob("L1", MTLayer, "app for amd64")
+		l2 := d.Blob("L2", MTLayer, "app for arm64")
+		m1 := d.Manifest("M1", c, []int{l1}, ManifestOpt{Subject: -1, LayerTitles: []string{"app.bin"}})
+		m2 := d.Manifest("M2", c, []int{l2}, ManifestOpt{Subject: -1, LayerTitles: []string{"app.bin"}})
+		d.Index("I", []int{m1, m2}, no())
 	case "many-referrers": // more pending predecessors at once than any small shape has (work-list growth)
 		c := d.Blob("C", MTConfig, "{}")
 		l := d.Blob("L", MTLayer, "l")
